@@ -940,7 +940,7 @@ func runOverlayTest(repo, verif, pkgDir, src, run string, timeoutS int) (bool, i
 	ov := `{"Replace":{"` + target + `":"` + src + `"}}`
 	ovp := filepath.Join(tmp, "ov.json")
 	os.WriteFile(ovp, []byte(ov), 0o644)
-	cmd := exec.Command("go", "test", "-overlay", ovp, "-vet=off", "-count=1", "-timeout", (time.Duration(timeoutS) * time.Second).String(), "-run", "^"+run+"$", "-v", "./"+pkgDir)
+	cmd := exec.Command("go", "test", "-tags", "verif", "-overlay", ovp, "-vet=off", "-count=1", "-timeout", (time.Duration(timeoutS) * time.Second).String(), "-run", "^"+run+"$", "-v", "./"+pkgDir)
 	cmd.Dir = repo
 	out, err := cmd.CombinedOutput()
 	cases := 0
